@@ -252,6 +252,7 @@ func evalCase(d caseDesc) ev.Result {
 	// material from other sessions / devices, prepared up front
 	var foreign *world
 	var stale61 []byte
+	var staleHelloNonce []byte
 	switch a.Kind {
 	case "foreign-device", "foreign-last-entry":
 		fd := d
@@ -264,6 +265,9 @@ func evalCase(d caseDesc) ev.Result {
 		l0.OnResponse = func(ex *deploy.Exchange) *deploy.Action {
 			if ex.RespType == 61 {
 				stale61 = ex.RespBody
+				if h, err := wire.ParseHelloDevice(ex.ReqBody); err == nil {
+					staleHelloNonce = h.Nonce
+				}
 				return &deploy.Action{DropErr: deploy.ErrDropped}
 			}
 			return nil
@@ -579,6 +583,11 @@ func evalCase(d caseDesc) ev.Result {
 			sent64 = true
 		}
 	}
+	// freshness: the nonce a device puts into HelloDevice must differ from the one it used in its
+	// previous session (the proof of possession is only worth something over a fresh nonce)
+	if staleHelloNonce != nil && pres.Hello != nil && bytes.Equal(staleHelloNonce, pres.Hello.Nonce) {
+		return ev.Failf("nonce-not-fresh", "%s/%s: the device sent the same HelloDevice nonce %x in two consecutive TO2 sessions", d.Cfg.Key, d.Cfg.Enc, pres.Hello.Nonce)
+	}
 	refOK, refWhy := pres.Accept(w.dev.Secret, int64(w.dev.Cred.PublicKeyHash.Algorithm), w.dev.Cred.PublicKeyHash.Value, to1dBytes)
 	success := terr == nil
 	moduleCalls := len(w.probe.Snapshot())
@@ -763,7 +772,7 @@ func TestC01(t *testing.T) {
 		return res
 	})
 
-	r.SetRule("attacks", "configuration × chain 1..3 × to1d/bypass × reuse/replace × one attack applied by a man-in-the-middle to the honest owner's traffic: (a) one structure-aware mutation anywhere in ProveOVHdr (COSE headers, payload, OVHeader, HMAC, counts, nonce, xA, hash) or in an OVNextEntry; (b) ProveOVHdr re-signed by stranger / manufacturer / earlier owner / device key / key of another kind, with and without swapping the advertised owner key; last entry re-signed (and re-pointed) by another key; (c) another device's voucher presented verbatim or re-signed by the genuine owner over this session's nonce and hash (only the header HMAC distinguishes), a voucher rooted in another manufacturer key carrying a correct HMAC computed with the device secret (only the key hash distinguishes), a ProveOVHdr replayed from an earlier session; a last entry taken from another device's voucher, zero entries with a self-advertised key; (d) entries truncated / extended / swapped / mis-numbered / mis-counted; to1d mutated or re-signed; (e) wrong Message-Type, injected error, dropped response. Oracle: an independent reference decides from the delivered bytes whether every listed condition holds; if not, TO2 must return an error and no credential, no device-module callback may happen and no type-64 request may be sent (leniently equivalent re-encodings excepted). Non-trivial: delivered attack that the reference rejects; distinct by descriptor.")
+	r.SetRule("attacks", "configuration × chain 1..3 × to1d/bypass × reuse/replace × one attack applied by a man-in-the-middle to the honest owner's traffic: (a) one structure-aware mutation anywhere in ProveOVHdr (COSE headers, payload, OVHeader, HMAC, counts, nonce, xA, hash) or in an OVNextEntry; (b) ProveOVHdr re-signed by stranger / manufacturer / earlier owner / device key / key of another kind, with and without swapping the advertised owner key; last entry re-signed (and re-pointed) by another key; (c) another device's voucher presented verbatim or re-signed by the genuine owner over this session's nonce and hash (only the header HMAC distinguishes), a voucher rooted in another manufacturer key carrying a correct HMAC computed with the device secret (only the key hash distinguishes), a ProveOVHdr replayed from an earlier session (the two sessions' HelloDevice nonces must differ); a last entry taken from another device's voucher, zero entries with a self-advertised key; (d) entries truncated / extended / swapped / mis-numbered / mis-counted; to1d mutated or re-signed; (e) wrong Message-Type, injected error, dropped response. Oracle: an independent reference decides from the delivered bytes whether every listed condition holds; if not, TO2 must return an error and no credential, no device-module callback may happen and no type-64 request may be sent (leniently equivalent re-encodings excepted). Non-trivial: delivered attack that the reference rejects; distinct by descriptor.")
 	ev.Rapid(r, "attacks", ev.N{Quick: 8000, Thorough: 200000}, genCase, evalCase)
 	ev.CheckWitness(r, "attacks", evalCase)
 }
